@@ -37,10 +37,28 @@ func GenTrace(property string, seed uint64, thorough bool) *Trace {
 			late[i] = 10
 		}
 	}
+	// the many-tables variant grows first and then breathes: phases in which targets and children are removed alternate
+	// with phases of growth, so that the number of tables behind one filter crosses 128 in both directions repeatedly
+	breathing := p.Wide == "tables" && p.EntityCap >= 300 && p.EntityCap < 2600
+	shrink := make([]int, len(names))
+	for i, n := range names {
+		shrink[i] = weights[i]
+		switch n {
+		case "rm":
+			shrink[i] = 70
+		case "new", "newbatch":
+			shrink[i] = 3
+		case "setrel":
+			shrink[i] = 8
+		}
+	}
 	for i := 0; i < p.Steps; i++ {
 		w := weights
 		if buildUp && i >= p.Steps-p.Steps/16 {
 			w = late
+		}
+		if breathing && i >= p.Steps/2 && ((i-p.Steps/2)/60)%2 == 0 {
+			w = shrink
 		}
 		st := Step{Op: names[sched.Pick(w)]}
 		st.A = make([]uint32, 24)
